@@ -22,6 +22,7 @@ func TestReplay(t *testing.T)       { vk.TestReplay(t) }
 
 type Filler struct {
 	ID, Rest, QK, QV, Name, Tag, Host, XName, Ck, Zz, Body string
+	Proto2                                                 string `json:",omitempty"` // X-Forwarded-Proto value of this request (first header slot), when the probe carries that header
 	Extra                                                  string `json:",omitempty"` // names of two more header lines (Q-<Extra>, R-<Extra>) in the first header slots
 	Proto                                                  string // 1.1 | 1.0
 	NCookies                                               int
@@ -37,6 +38,7 @@ type Case struct {
 	Fillers                                           []Filler
 	Rewrite                                           bool   `json:",omitempty"` // the handler overrides path and method after reading the values (they must stay what they were until it returns)
 	Miss                                              bool   `json:",omitempty"` // before the probe, a request that matches no route at all is answered by the application's ErrorHandler, which keeps what it read
+	Proto                                             bool   `json:",omitempty"` // the probe carries X-Forwarded-Proto: https (in lower case, as proxies send it) in the first header slot
 	After                                             bool   `json:",omitempty"` // before the probe, a GET that only the middleware matches (the endpoint is a POST route, a GET route with a constraint fails late): the middleware reads its parameter again after Next()
 	Multi                                             bool   `json:",omitempty"` // the probe carries one header (X-Multi) in two lines, in the first header slots
 	Pre                                               string `json:",omitempty"` // middleware in front of the endpoint: "" | mw-next (passes on) | mw-params (reads its own route parameter and other accessors, keeps them, passes on)
@@ -106,8 +108,17 @@ func (r *run) capture(c fiber.Ctx, cs Case, probe bool) {
 	for _, ip := range c.IPs() {
 		add("IPs", ip, "")
 	}
-	add("BaseURL", c.BaseURL(), "http://"+cs.H1+"."+cs.H2+".example.com")
-	add("Scheme", c.Scheme(), "http")
+	scheme := "http"
+	if cs.Proto && probe {
+		scheme = "https" // announced by the proxy in front (X-Forwarded-Proto)
+	}
+	if probe {
+		add("BaseURL", c.BaseURL(), scheme+"://"+cs.H1+"."+cs.H2+".example.com")
+		add("Scheme", c.Scheme(), scheme)
+	} else {
+		add("BaseURL", c.BaseURL(), "")
+		add("Scheme", c.Scheme(), "")
+	}
 	for _, s := range c.Subdomains() {
 		add("Subdomains", s, "")
 	}
@@ -224,8 +235,18 @@ func (cs Case) probeWire() string {
 	if cs.Multi {
 		multi = "X-Multi: " + cs.T1 + "\r\nX-Multi: " + cs.T2 + "\r\n" // one header in two lines
 	}
+	if cs.Proto {
+		multi = "X-Forwarded-Proto: https\r\n" + multi // the first header slot; later requests carry other values there
+	}
 	return fmt.Sprintf("POST /u/%s/%s?probe=1&name=%s&tags=%s&tags=%s HTTP/1.1\r\nHost: %s.%s.example.com\r\n"+multi+"X-Name: %s\r\nAccept: %s\r\nCookie: ck=%s; other=%s\r\nX-Forwarded-For: 1.2.3.4, 5.6.7.8\r\n%sContent-Type: %s\r\nContent-Length: %d\r\n\r\n%s",
 		cs.ID, cs.Rest, cs.QName, cs.T1, cs.T2, cs.H1, cs.H2, cs.XName, probeAccept, cs.Ck, cs.T1, ce, ct, len(body), body)
+}
+
+func (f Filler) protoLine() string {
+	if f.Proto2 == "" {
+		return ""
+	}
+	return "X-Forwarded-Proto: " + f.Proto2 + "\r\n"
 }
 
 func (f Filler) wire() string {
@@ -243,7 +264,7 @@ func (f Filler) wire() string {
 	for i := 0; i < f.NCookies; i++ {
 		cookies += fmt.Sprintf("; z%d=%s", i, f.Zz)
 	}
-	return fmt.Sprintf("POST /u/%s/%s?%s=%s&name=%s&tags=%s HTTP/%s\r\nHost: %s.EXAMPLE.ORG\r\n"+fmt.Sprintf("Q-%s: 1\r\nR-%s: 2\r\n", f.Extra, f.Extra)+"%sX-Name: %s\r\nCookie: %s\r\nX-Forwarded-For: 9.9.9.9, 8.8.8.8, 7.7.7.7\r\nContent-Type: %s\r\nContent-Length: %d\r\n\r\n%s",
+	return fmt.Sprintf("POST /u/%s/%s?%s=%s&name=%s&tags=%s HTTP/%s\r\nHost: %s.EXAMPLE.ORG\r\n"+f.protoLine()+fmt.Sprintf("Q-%s: 1\r\nR-%s: 2\r\n", f.Extra, f.Extra)+"%sX-Name: %s\r\nCookie: %s\r\nX-Forwarded-For: 9.9.9.9, 8.8.8.8, 7.7.7.7\r\nContent-Type: %s\r\nContent-Length: %d\r\n\r\n%s",
 		f.ID, f.Rest, f.QK, f.QV, f.Name, f.Tag, f.Proto, f.Host, ka, f.XName, cookies, ct, len(body), body)
 }
 
@@ -388,12 +409,12 @@ func genCase(t *rapid.T) Case {
 	cs := Case{ID: word(t, "id", 3, 9), Rest: word(t, "rest", 3, 9), QName: word(t, "qn", 3, 9), T1: word(t, "t1", 2, 5), T2: word(t, "t2", 2, 5),
 		H1: word(t, "h1", 2, 5), H2: word(t, "h2", 2, 5), XName: word(t, "xn", 3, 9), Ck: word(t, "ck", 3, 9), FName: word(t, "fn", 3, 9), JSONBody: rapid.IntRange(0, 3).Draw(t, "json") == 0,
 		CEnc: rapid.SampledFrom([]string{"", "", "", "identity", "utf-8", "compress"}).Draw(t, "cenc"),
-		Pre:  rapid.SampledFrom([]string{"", "", "mw-next", "mw-params", "mw-params"}).Draw(t, "pre"), Rewrite: rapid.IntRange(0, 3).Draw(t, "rewrite") == 0, Miss: rapid.IntRange(0, 2).Draw(t, "miss") == 0, Multi: rapid.Bool().Draw(t, "multi"), After: rapid.Bool().Draw(t, "after")}
+		Pre:  rapid.SampledFrom([]string{"", "", "mw-next", "mw-params", "mw-params"}).Draw(t, "pre"), Rewrite: rapid.IntRange(0, 3).Draw(t, "rewrite") == 0, Miss: rapid.IntRange(0, 2).Draw(t, "miss") == 0, Multi: rapid.Bool().Draw(t, "multi"), After: rapid.Bool().Draw(t, "after"), Proto: rapid.Bool().Draw(t, "proto")}
 	n := rapid.IntRange(1, 20).Draw(t, "nfill")
 	up := func(label string, lo, hi int) string { return strings.ToUpper(word(t, label, lo, hi)) }
 	for i := 0; i < n; i++ {
 		cs.Fillers = append(cs.Fillers, Filler{ID: up("fid", 1, 14), Rest: up("frest", 1, 14), QK: up("fk", 1, 6), QV: up("fv", 1, 6), Name: up("fqn", 1, 14), Tag: up("ft", 1, 8),
-			Host: up("fh", 1, 12), XName: up("fxn", 1, 14), Ck: up("fck", 1, 14), Zz: up("fzz", 1, 6), Body: up("fb", 1, 40), Extra: up("fextra", 1, 5),
+			Host: up("fh", 1, 12), XName: up("fxn", 1, 14), Ck: up("fck", 1, 14), Zz: up("fzz", 1, 6), Body: up("fb", 1, 40), Extra: up("fextra", 1, 5), Proto2: map[bool]string{true: rapid.SampledFrom([]string{"wss", "HTTPs", "http", "ftp"}).Draw(t, "fproto")}[cs.Proto],
 			Proto: rapid.SampledFrom([]string{"1.1", "1.1", "1.0"}).Draw(t, "proto"), NCookies: rapid.IntRange(0, 4).Draw(t, "ncookies"),
 			JSON: rapid.IntRange(0, 3).Draw(t, "fjson") == 0, NewConn: rapid.IntRange(0, 5).Draw(t, "newconn") == 0})
 	}
